@@ -64,6 +64,37 @@ def handle (line : String) : String :=
       let dec (l : List Nat) : String := String.ofList (l.map Char.ofNat)
       out3 r.case (toJson (dec (emulSoundexN cs))) (toJson (dec (sparkSoundexN cs)))
         (scopeIf (!(soundexFirstLetterB cs) && !cs.isEmpty) "H_soundexFirstLetter")
+    | "levenshtein" =>
+      let d : Option Int := match r.str, r.rep with
+        | some a, some b => some (duckLevenshtein a.toList b.toList : Nat)
+        | _, _ => none
+      out3 r.case (optInt (emulLevenshtein d r.k)) (optInt (sparkLevenshtein d r.k))
+        (scopeIf (!decide (H_levenshteinNullInput d r.k)) "H_levenshteinNullInput")
+    | "format_string" =>
+      let fmt := (r.str.getD "").toList
+      let cols := (r.strs.getD []).map String.toList
+      out3 r.case (optStr ((emulFormat fmt cols).map String.ofList)) (optStr ((sparkFormat fmt cols).map String.ofList))
+        (scopeIf (!decide (H_formatPlainPlaceholders fmt cols)) "H_formatPlainPlaceholders")
+    | "split_fmt" => outP r.case (toJson ((splitFmt (r.str.getD "").toList).map String.ofList))
+    | "nanvl" =>
+      let nan : String → Bool := fun s => s == "nan"
+      let c1 := ((r.ostrs.getD [])[0]?).join
+      let c2 := ((r.ostrs.getD [])[1]?).join
+      out3 r.case (optStr (emulNanvl nan c1 c2)) (optStr (sparkNanvl nan c1 c2)) (scopeIf (!decide (H_nanvlNullInput c1)) "H_nanvlNullInput")
+    | "dayofweek" => out3 r.case (toJson (emulDayOfWeek (g r.d))) (toJson (sparkDayOfWeek (g r.d))) []
+    | "prog" =>
+      let steps := (r.prog.getD []).map PStep.toStep
+      if steps.any Option.isNone then Json.compress (Json.mkObj [("case", toJson r.case), ("unmodelled", toJson true)])
+      else
+        let prog := steps.filterMap id
+        let rows := r.rows.getD []
+        out3 r.case (table (evalAll (hrun prog).view rows)) (table (evalAll (prun prog) rows)) []
+    | "compose_consts" =>
+      Json.compress (Json.mkObj [("case", toJson r.case),
+        ("whenCopiesReceiver", toJson whenCopiesReceiver), ("otherwiseCopiesReceiver", toJson otherwiseCopiesReceiver),
+        ("columnSelfWriters", toJson columnSelfWriters), ("columnApi", toJson columnApi)])
+    | "duck_levenshtein" => outP r.case (toJson (duckLevenshtein (r.str.getD "").toList (r.rep.getD "").toList))
+    | "duck_dayofweek" => outP r.case (toJson (duckDayOfWeek (g r.d)))
     | "duck_factorial" => outP r.case (toJson (duckFactorial (g r.n).toNat))
     | "duck_index" => outP r.case (optInt (duckIndex xs (g r.k)))
     | "duck_list_slice" => outP r.case (ints (duckListSlice xs (g r.a) (g r.b)))
